@@ -1,6 +1,7 @@
 package govc
 
 import (
+	"os"
 	"fmt"
 	"go/ast"
 	"go/constant"
@@ -481,6 +482,9 @@ func (g *vcgen) call2(v ssa.Value, c *ssa.CallCommon, args []string) []string {
 		}
 		return g.applyFunc(v, mc.Fn.(*ssa.Function), args, binds, c)
 	}
+	if par, ok := c.Value.(*ssa.Parameter); ok && g.fc != nil && flagHas(g.fc.Flags["applies"], par.Name()) {
+		return g.applyParam(par, c.Signature())
+	}
 	g.nonNil(fv, origin(c.Value))
 	if fc := g.eng.funcFieldContract(c.Value); fc != nil {
 		return g.applyContract(fc, nil, c.Signature(), args, nil, fc.FullName())
@@ -493,6 +497,17 @@ func (g *vcgen) call2(v ssa.Value, c *ssa.CallCommon, args []string) []string {
 	}
 	if fk := g.eng.libraryFuncField(c.Value); fk != "" {
 		g.noteAssumption("dynamic call through field " + fk + ": every value stored there is the result of a library call (checked), so the call is a library call without effect on module state")
+		return g.freshResults(c.Signature())
+	}
+	if targets, fk := g.eng.fieldFuncTargets(c.Value); len(targets) > 0 {
+		eff := newEffects()
+		var names []string
+		for _, t := range targets {
+			eff.add(g.eng.FuncEffects(t))
+			names = append(names, shortName(FullName(t)))
+		}
+		g.noteAssumption("dynamic call through field " + fk + ": closed world over the stores to that field (" + strings.Join(names, ", ") + "); write sets havocked, result arbitrary")
+		g.havocEffectsOf(eff, "field "+fk)
 		return g.freshResults(c.Signature())
 	}
 	g.warn("dynamic call through %s: all state havocked", origin(c.Value))
@@ -508,7 +523,18 @@ func (g *vcgen) freshResults(sig *types.Signature) []string {
 	return out
 }
 
+// beginCall fixes the ghost clock value at the start of a call whose events are being forgotten
+func (g *vcgen) beginCall() func() {
+	if g.clockFloor != "" {
+		return func() {}
+	}
+	g.stateVar("G.now", "Int")
+	g.clockFloor = g.get(g.st, "G.now")
+	return func() { g.clockFloor = "" }
+}
+
 func (g *vcgen) havocAll() {
+	defer g.beginCall()()
 	var names []string
 	for n := range g.varSort {
 		names = append(names, n)
@@ -535,7 +561,7 @@ func (g *vcgen) havocAll() {
 			continue
 		}
 		// monitor bookkeeping, defer flags and range iterators are local to this activation
-		if strings.HasPrefix(n, "G.held.") || strings.HasPrefix(n, "G.bcast.") || strings.HasPrefix(n, "G.wold.") || strings.HasPrefix(n, "G.armed.") || strings.HasPrefix(n, "G.visited.") || strings.HasPrefix(n, "old:") {
+		if strings.HasPrefix(n, "G.held.") || strings.HasPrefix(n, "G.bcast.") || strings.HasPrefix(n, "G.wold.") || strings.HasPrefix(n, "G.armed.") || strings.HasPrefix(n, "G.visited.") || strings.HasPrefix(n, "old:") || strings.HasPrefix(n, "G.applied.") || strings.HasPrefix(n, "G.appres.") {
 			continue
 		}
 		if strings.HasPrefix(n, "G.fret.") {
@@ -589,7 +615,11 @@ func (g *vcgen) havocNamed(n string) {
 		g.stateVar("G.now", "Int")
 		cur := g.get(g.st, n)
 		fv := g.freshConst(n, "Int")
-		g.assume(fmt.Sprintf("(> %s %s)", fv, g.get(g.st, "G.now")))
+		floor := g.get(g.st, "G.now")
+		if g.clockFloor != "" {
+			floor = g.clockFloor // several events forgotten across one call: all of them may come right after the call started
+		}
+		g.assume(fmt.Sprintf("(> %s %s)", fv, floor))
 		g.set(n, fmt.Sprintf("(ite (= %s %s) %s %s)", g.get(g.st, "G.cnt."+ev), g.get(g.old0, "G.cnt."+ev), fv, cur))
 	case strings.HasPrefix(n, "G.last."):
 		ev := strings.TrimPrefix(n, "G.last.")
@@ -600,10 +630,24 @@ func (g *vcgen) havocNamed(n string) {
 	default:
 		old := g.get(g.st, n)
 		nv := g.havocVar(n)
-		if strings.HasPrefix(n, "P.") && strings.HasPrefix(g.varSort[n], "(Array Int ") && len(g.localCells) > 0 && !g.inClosureCall {
-			// local variables captured only by this function's own closures cannot be reached by other code
-			term := nv
+		// local variables captured only by this function's own closures cannot be reached by other code; a closure of
+		// this function may write them unless they are assigned exactly once (stable)
+		var keep []string
+		if strings.HasPrefix(n, "P.") && strings.HasPrefix(g.varSort[n], "(Array Int ") {
 			for _, c := range g.localCells {
+				if !g.inClosureCall || g.stableCells[c] {
+					keep = append(keep, c)
+				}
+			}
+		}
+		for _, c := range g.localFields[n] {
+			if !g.inClosureCall || g.stableCells[c] {
+				keep = append(keep, c)
+			}
+		}
+		if len(keep) > 0 {
+			term := nv
+			for _, c := range keep {
 				term = fmt.Sprintf("(store %s %s (select %s %s))", term, c, old, c)
 			}
 			g.st.m[n] = g.define(n, g.varSort[n], term)
@@ -614,6 +658,7 @@ func (g *vcgen) havocNamed(n string) {
 func (g *vcgen) havocEffects(eff *Effects) { g.havocEffectsOf(eff, "callee") }
 
 func (g *vcgen) havocEffectsOf(eff *Effects, who string) {
+	defer g.beginCall()()
 	if eff.All {
 		if g.frameActive() {
 			g.oblige("frame", "call of "+who, "false", who+" has no contract and may write anything (dynamic call inside); the caller's modifies clause cannot be checked")
@@ -763,6 +808,9 @@ func (g *vcgen) applyFunc(v ssa.Value, fn *ssa.Function, args []string, binds []
 		return res
 	}
 	if fc := g.eng.ContractOf(fn); fc != nil {
+		if fc.Flags["applies"] != "" && c != nil {
+			return g.applyApplier(fc, fn, args, binds, c)
+		}
 		return g.applyContract(fc, fn, fn.Signature, args, binds, FullName(fn))
 	}
 	// promoted-method wrapper: apply the contract of the embedded type's method
@@ -784,13 +832,143 @@ func (g *vcgen) applyFunc(v ssa.Value, fn *ssa.Function, args []string, binds []
 	return g.freshResults(fn.Signature)
 }
 
+// ---- functions that apply a function parameter exactly once ("applies p") ----
+// The contract flag "applies p" on F says: F calls its function parameter p exactly once and returns p's results;
+// whatever else F does stays within F's own frame. F's unit proves it (applyParam below counts the calls and
+// records the results; unit exit adds the obligations). A caller that passes a closure it created itself then
+// reasons with that closure's contract in place of the call, with F's own frame forgotten before and after.
+// "returnsparam p" says F returns p itself (r0 == p): used to see through wrappers such as WithErrorCause.
+
+func (g *vcgen) applyParam(par *ssa.Parameter, sig *types.Signature) []string {
+	cn := "G.applied." + par.Name()
+	g.stateVar(cn, "Int")
+	g.set(cn, fmt.Sprintf("(+ %s 1)", g.get(g.st, cn)))
+	g.havocAll() // the function passed in may do anything
+	res := g.freshResults(sig)
+	for i, r := range res {
+		rn := fmt.Sprintf("G.appres.%s.%d", par.Name(), i)
+		g.stateVar(rn, g.s.sortOf(sig.Results().At(i).Type()))
+		g.set(rn, r)
+	}
+	return res
+}
+
+// originClosure: the closure (created in this function) that value v is, seen through calls that return their parameter
+func (g *vcgen) originClosure(v ssa.Value) *ssa.MakeClosure {
+	switch x := v.(type) {
+	case *ssa.MakeClosure:
+		return x
+	case *ssa.ChangeType:
+		return g.originClosure(x.X)
+	case *ssa.Call:
+		c := x.Common()
+		var targets []*ssa.Function
+		if c.IsInvoke() {
+			if !closedWorld(c.Value.Type()) {
+				return nil
+			}
+			for _, t := range g.eng.Implementers(c.Value.Type().Underlying().(*types.Interface), typeName(c.Value.Type())) {
+				if m := g.eng.MethodOf(t, c.Method.Name(), c.Method.Pkg()); m != nil {
+					targets = append(targets, m)
+				}
+			}
+		} else if fn := c.StaticCallee(); fn != nil {
+			targets = []*ssa.Function{fn}
+		}
+		if len(targets) == 0 {
+			return nil
+		}
+		var arg ssa.Value
+		for _, t := range targets {
+			fc := g.eng.ContractOf(t)
+			if fc == nil || fc.Flags["returnsparam"] == "" {
+				return nil
+			}
+			idx := -1
+			for i, p := range t.Params {
+				if p.Name() == strings.TrimSpace(fc.Flags["returnsparam"]) {
+					idx = i
+				}
+			}
+			if c.IsInvoke() {
+				idx--
+			}
+			if idx < 0 || idx >= len(c.Args) {
+				return nil
+			}
+			if arg != nil && arg != c.Args[idx] {
+				return nil
+			}
+			arg = c.Args[idx]
+			g.u.UsedContracts[FullName(t)] = true
+		}
+		return g.originClosure(arg)
+	}
+	return nil
+}
+
+func (g *vcgen) applyApplier(fc *FuncContract, fn *ssa.Function, args, binds []string, c *ssa.CallCommon) []string {
+	pname := strings.TrimSpace(fc.Flags["applies"])
+	idx := -1
+	for i, p := range fn.Params {
+		if p.Name() == pname {
+			idx = i
+		}
+	}
+	aidx := idx
+	if c.IsInvoke() {
+		aidx--
+	}
+	name := FullName(fn)
+	if idx < 0 || aidx < 0 || aidx >= len(c.Args) {
+		g.unsupported("applies %s on %s: no such parameter", pname, name)
+		return g.freshResults(fn.Signature)
+	}
+	// F's own part: preconditions, frame (before)
+	own := *fc
+	own.Ensures = nil
+	g.skipArgClosures = true // the function passed in is accounted for separately, by its own contract
+	g.applyContract(&own, fn, fn.Signature, args, binds, name)
+	g.skipArgClosures = false
+	psig := fn.Params[idx].Type().Underlying().(*types.Signature)
+	var res []string
+	av := c.Args[aidx]
+	if par, ok := av.(*ssa.Parameter); ok && g.fc != nil && flagHas(g.fc.Flags["applies"], par.Name()) {
+		// forwarding our own applied parameter
+		res = g.applyParam(par, psig)
+	} else if mc := g.originClosure(av); mc != nil {
+		var cb []string
+		for _, bv := range mc.Bindings {
+			cb = append(cb, g.val(bv))
+		}
+		var cargs []string
+		for i := 0; i < psig.Params().Len(); i++ {
+			cargs = append(cargs, g.freshOfType("cbarg", psig.Params().At(i).Type()))
+		}
+		res = g.applyFunc(nil, mc.Fn.(*ssa.Function), cargs, cb, nil)
+	} else {
+		g.warn("%s applies a function value of unknown origin (%s): all state havocked", shortName(name), origin(av))
+		g.havocAll()
+		res = g.freshResults(psig)
+	}
+	// F's own frame again (after)
+	own.Requires = nil
+	g.skipArgClosures = true
+	g.applyContract(&own, fn, fn.Signature, args, binds, name)
+	g.skipArgClosures = false
+	if fn.Signature.Results().Len() == len(res) {
+		return res
+	}
+	return g.freshResults(fn.Signature)
+}
+
 // callSiteEffects: the summary of fn plus the effects of the closures passed for its call-only function parameters
 func (g *vcgen) callSiteEffects(fn *ssa.Function, c *ssa.CallCommon) *Effects {
 	base := g.eng.FuncEffects(fn)
 	if c == nil {
 		c = g.curCall
 	}
-	if c == nil {
+	if c == nil || g.skipArgClosures {
 		return base
 	}
 	extra := newEffects()
@@ -956,6 +1134,26 @@ func clauseLabel(c Clause, i int) string {
 func (g *vcgen) applyContract(fc *FuncContract, fn *ssa.Function, sig *types.Signature, args, binds []string, calleeName string) []string {
 	site := g.callSite(shortName(calleeName))
 	calleeShort := shortName(calleeName)
+	// type invariants of the objects handed over, as they stand before the call
+	invBefore := map[int][]string{}
+	if fn != nil && fn.Blocks != nil && g.eng.InModule(fn) && !fc.Assumed {
+		for i, p := range fn.Params {
+			if i >= len(args) || flagHas(fc.Flags["partial"], p.Name()) {
+				continue
+			}
+			if _, ok := p.Type().Underlying().(*types.Pointer); !ok {
+				continue
+			}
+			if ti := g.typeInvOf(p.Type()); ti != nil {
+				invBefore[i] = g.typeInvTerms(ti, args[i], p.Type(), g.st)
+				if os.Getenv("GOVC_INVARG") != "" {
+					for k, tm := range invBefore[i] {
+						g.obligeAt("typeinv-arg", fmt.Sprintf("%s:%s:%d", calleeShort, p.Name(), k), site, fmt.Sprintf("(=> (not (= %s 0)) %s)", args[i], tm), ti.Clauses[k].Src)
+					}
+				}
+			}
+		}
+	}
 	if !fc.Assumed {
 		g.u.UsedContracts[calleeName] = true
 	}
@@ -992,6 +1190,8 @@ func (g *vcgen) applyContract(fc *FuncContract, fn *ssa.Function, sig *types.Sig
 		g.obligeAt("pre", calleeShort+":"+clauseLabel(r, i), site, t, r.Src)
 	}
 	// frame: what the callee may modify must be allowed by the caller's own modifies clause
+	endCall := g.beginCall()
+	defer endCall()
 	if fc.HasModifies {
 		g.stateVar("G.alloc", "Int")
 		g.havocNamed("G.alloc")
@@ -1051,8 +1251,24 @@ func (g *vcgen) applyContract(fc *FuncContract, fn *ssa.Function, sig *types.Sig
 	// type's invariant again when it returns (the callee's own unit proves it for every type it stores into)
 	if fn != nil && fn.Blocks != nil && g.eng.InModule(fn) && !fc.Assumed {
 		for i, p := range fn.Params {
-			if i < len(args) {
-				g.assumeTypeInvOn(args[i], p.Type())
+			if i >= len(args) || flagHas(fc.Flags["partial"], p.Name()) {
+				continue
+			}
+			if _, ok := p.Type().Underlying().(*types.Pointer); !ok {
+				continue
+			}
+			ti := g.typeInvOf(p.Type())
+			if ti == nil {
+				continue
+			}
+			before := invBefore[i]
+			after := g.typeInvTerms(ti, args[i], p.Type(), g.st)
+			if len(before) != len(after) {
+				continue
+			}
+			for k := range after {
+				// the callee's unit proves the invariant at exit under the invariant at entry: only that implication is known here
+				g.assume(fmt.Sprintf("(=> (not (= %s 0)) (=> %s %s))", args[i], before[k], after[k]))
 			}
 		}
 	}
@@ -2045,6 +2261,72 @@ func (e *Engine) libraryFuncField(v ssa.Value) string {
 		return ""
 	}
 	return key
+}
+
+// fieldFuncTargets: if v is a load of a struct field of function type of a module struct and every store to that
+// field anywhere in the loaded program stores a closure or a named function (or nil), the functions stored.
+// Closed world: the field can only be written by code that was loaded.
+func (e *Engine) fieldFuncTargets(v ssa.Value) ([]*ssa.Function, string) {
+	ld, ok := v.(*ssa.UnOp)
+	if !ok || ld.Op != token.MUL {
+		return nil, ""
+	}
+	fa, ok := ld.X.(*ssa.FieldAddr)
+	if !ok {
+		return nil, ""
+	}
+	if _, isFn := ld.Type().Underlying().(*types.Signature); !isFn {
+		return nil, ""
+	}
+	key := fieldKey(fa)
+	if e.fieldTargets == nil {
+		e.fieldTargets = map[string][]*ssa.Function{}
+		e.fieldTargetsBad = map[string]bool{}
+		for _, f := range e.AllFuncs {
+			for _, b := range f.Blocks {
+				for _, ins := range b.Instrs {
+					st, ok := ins.(*ssa.Store)
+					if !ok {
+						continue
+					}
+					sfa, ok := st.Addr.(*ssa.FieldAddr)
+					if !ok {
+						continue
+					}
+					if _, isFn := st.Val.Type().Underlying().(*types.Signature); !isFn {
+						continue
+					}
+					k := fieldKey(sfa)
+					val := st.Val
+					if ct, ok := val.(*ssa.ChangeType); ok {
+						val = ct.X
+					}
+					switch x := val.(type) {
+					case *ssa.Const:
+					case *ssa.MakeClosure:
+						if fn, ok := x.Fn.(*ssa.Function); ok {
+							e.fieldTargets[k] = append(e.fieldTargets[k], fn)
+						} else {
+							e.fieldTargetsBad[k] = true
+						}
+					case *ssa.Function:
+						e.fieldTargets[k] = append(e.fieldTargets[k], x)
+					default:
+						e.fieldTargetsBad[k] = true
+					}
+				}
+			}
+		}
+	}
+	if e.fieldTargetsBad[key] || len(e.fieldTargets[key]) == 0 {
+		return nil, ""
+	}
+	// a struct value copied as a whole (*p = *q) would bypass the field stores: only pointer-held module structs
+	st := fa.X.Type().Underlying().(*types.Pointer).Elem()
+	if n := namedOf(st); n == nil || n.Obj().Pkg() == nil || !strings.HasPrefix(n.Obj().Pkg().Path(), ModPath) {
+		return nil, ""
+	}
+	return e.fieldTargets[key], key
 }
 
 func flagHas(list, name string) bool {
